@@ -150,7 +150,10 @@ def main():
         "engines": [{"name": "govc", "path": "/verif/govc", "serves_properties": [c["property_id"] for c in checks],
                      "kind_free_text": "self-built deductive verifier for Go: go/ssa of /repo's working tree -> verification conditions (bit-vector integers, component heap model with type-based separation, contracts from zz_verif_contracts*.go under build tag verif) -> one SMT query per obligation (z3 5.1 / z3 4.8 / cvc5, CPU-time limits); counter-models replayed on the real code with go test -overlay; engine self-test corpus in /verif/selftest"}],
         "checks": checks,
-        "notes": "fix commits and known findings: /verif/known_findings.txt; seeded changes and which checks catch them: /verif/seeded/*/meta.json and DESIGN.md section 9",
+        "notes": ("fix commits and known findings: /verif/known_findings.txt; seeded changes and which checks catch them: /verif/seeded/*/meta.json and DESIGN.md "
+                  "section 10; engine self-test (known-verdict corpus incl. replay canaries): /verif/selftest/run.sh, run after every engine change; property "
+                  "configurations: /verif/props/<id>.json generated from /verif/props/own and /verif/props/parts by tools/merge_props.py; thorough tier = 6x solver "
+                  "limits + cross-check of every unsat by a second solver + thorough-only units; replay files: /verif/replays/<id>/, run with /verif/tools/replay.sh"),
         "not_applicable": na,
     }
     json.dump(m, open(V + '/MANIFEST.json', 'w'), indent=1)
